@@ -132,3 +132,67 @@ pub proof fn lemma_rejected_examples(t: ValueType)
 {
 	if t is Pointer { assert(abi_ok(t) == abi_ok(value_type::deref(t))); }
 }
+
+// ---- wellformedness of the externalised type (what the callers' `assert!(vt.is_wellformed())` rely on) ----------
+// FINDING (reported, reproduced on the real pipeline): externalisation does NOT preserve wellformedness.  An array view of
+// array views `[][]T` is wellformed (an `Arraylike` may be an element) but becomes `EndlessArray{EndlessArray{T}}`, and an
+// `EndlessArray` cannot be an element.  `extern fn foo(x: [][]i32);` then panics in typer.rs (`assert!(vt.is_wellformed())`
+// after `can_be_parameter()` is false) instead of being rejected.  What IS proved below: this is the only way.
+pub open spec fn has_array_view_of_array_views(t: ValueType) -> bool
+	decreases t
+{
+	if t is Arraylike { value_type::elem(t) is Arraylike || has_array_view_of_array_views(value_type::elem(t)) }
+	else if t is Pointer || t is View { has_array_view_of_array_views(value_type::deref(t)) }
+	else { false }
+}
+
+pub proof fn lemma_externalized_wf_inner(t: ValueType)
+	requires value_type::wf_inner(t), abi_ok(t), !has_array_view_of_array_views(t)
+	ensures value_type::wf_inner(externalized(t)),
+		!(t is Arraylike) ==> value_type::elem_ok(externalized(t)),
+	decreases t
+{
+	if t is Arraylike { lemma_externalized_wf_inner(value_type::elem(t)); }
+	else if t is Pointer { lemma_externalized_wf_inner(value_type::deref(t)); }
+}
+
+pub proof fn lemma_externalized_wf(t: ValueType)
+	requires value_type::wf(t), abi_ok(t), !has_array_view_of_array_views(t)
+	ensures value_type::wf(externalized(t)), value_type::wf(extern_position_type(t))
+{
+	if t is Arraylike {
+		lemma_externalized_wf_inner(value_type::elem(t));
+		let inner = ValueType::EndlessArray { element_type: Box::new(externalized(value_type::elem(t))) };
+		assert(value_type::wf_inner(inner));
+		assert(value_type::deref(extern_position_type(t)) == inner);
+	}
+	else if t is Pointer || t is View { lemma_externalized_wf_inner(value_type::deref(t)); }
+}
+
+// the machine-checked witness of the finding: wellformed, accepted, and externalised into a type that is not wellformed
+pub proof fn witness_array_view_of_array_views_loses_wellformedness()
+	ensures ({
+		let t: ValueType = ValueType::Arraylike { element_type: Box::new(ValueType::Arraylike { element_type: Box::new(ValueType::Int32) }) };
+		value_type::wf(t) && abi_ok(t) && !value_type::wf(externalized(t)) && !value_type::wf(extern_position_type(t))
+	})
+{
+	reveal_with_fuel(value_type::wf_inner, 3);
+	reveal_with_fuel(abi_ok, 3);
+	reveal_with_fuel(externalized, 3);
+	let e: ValueType = ValueType::Arraylike { element_type: Box::new(ValueType::Int32) };
+	let t: ValueType = ValueType::Arraylike { element_type: Box::new(e) };
+	assert(value_type::elem(t) == e);
+	assert(value_type::elem(e) == ValueType::Int32);
+	assert(value_type::wf_inner(e));
+	assert(abi_ok(e));
+	assert(abi_ok(t));
+	let xe = externalized(e);
+	assert(xe == ValueType::EndlessArray { element_type: Box::new(ValueType::Int32) });
+	let xt = externalized(t);
+	assert(xt == ValueType::EndlessArray { element_type: Box::new(xe) });
+	assert(value_type::elem(xt) == xe);
+	assert(!value_type::elem_ok(xe));
+	assert(!value_type::wf(xt));
+	assert(value_type::deref(extern_position_type(t)) == xt);
+	assert(!value_type::wf_inner(xt));
+}
